@@ -60,6 +60,18 @@ def observe(tag, j, g, rng, n_orient, explicit=None):
     dim = max([len(m) - 1 for m in st["e2n"]] + [0])
     ids = [e for e in S.edges if len(S._edge[e]) >= 2]
     out = []
+    if ids:
+        # the very first requests come under two different assignments, one per order: nothing computed for
+        # one assignment may be served for another
+        with warnings.catch_warnings():
+            warnings.simplefilter("ignore")
+            try:
+                a1 = {e: rng.randrange(2) for e in ids}
+                a2 = {e: 1 - v for e, v in a1.items()}
+                xgi.boundary_matrix(S, order=1, orientations=a1)
+                xgi.boundary_matrix(S, order=min(2, dim + 1), orientations=a2)
+            except Exception:  # noqa: BLE001
+                pass
     for oi in range(n_orient):
         # orientations as ints, python bools or numpy bools (all are "boolean orientations")
         conv = [int, bool, np.bool_][oi % 3]
